@@ -130,7 +130,7 @@ Proof.
   rewrite Er in Hdt, Hq. split; [split; [auto|split; [eapply drop_tail_tl; eauto|]]|].
   - intros E. unfold wstep in Hs. rewrite Er in Hs.
     destruct a; cbn in Hs; wcase Hs; injection Hs as Hs _; rewrite <- Hs in E; cbn in E;
-      try (destruct (Hq E) as [Hx|Hx]; [discriminate|]; injection Hx as _ Hx; rewrite Hx; auto).
+      try (destruct (Hq E) as [Hx|Hx]; [discriminate|]; inversion Hx; auto).
     (* WDrop *)
     cbn in Hdt. destruct (rem w') as [|b r']; auto. destruct b; try discriminate. destruct r'; [auto|discriminate].
   - unfold Pind. rewrite Er. unfold wstep in Hs. rewrite Er in Hs.
